@@ -228,7 +228,9 @@ class SeriesSchema(ArraySchema[pd.Series]):
         if not is_field(check_obj):
             raise TypeError(f"expected pd.Series, got {type(check_obj)}")
 
-        if hasattr(check_obj, "dask"):
+        # (looked up on the class: a column or an index label named "dask" is
+        # an attribute of a pandas object as well)
+        if hasattr(type(check_obj), "dask"):
             # special case for dask series
             if inplace:
                 # pylint: disable=unused-import
